@@ -6,8 +6,9 @@ import sys, os, json, subprocess, itertools, hashlib, time, fcntl, concurrent.fu
 
 ROOT = os.environ.get("VERIF_ROOT", "/verif")
 HERE = os.path.join(ROOT, "harness", "svloom")
-BIN = os.path.join(ROOT, "build", "target-loom", "release", "svloom")
-SHADOW = os.path.join(ROOT, "build", "svloom-shadow")
+BINS = {"loom": os.path.join(ROOT, "build", "target-loom", "release", "svloom"),
+        "shuttle": os.path.join(ROOT, "build", "target-shuttle", "release", "svshuttle")}
+CRATES = {"loom": HERE, "shuttle": os.path.join(ROOT, "harness", "svshuttle")}
 
 CALLS = ["L0", "L1", "L9", "C", "N"]
 TEXTS = ["\\e", "a", "a\\nb", "a\\nb\\n"]          # \e = empty text
@@ -17,18 +18,20 @@ def build():
     os.makedirs(os.path.join(ROOT, "build"), exist_ok=True)
     with open(os.path.join(ROOT, "build", ".lock"), "w") as lk:
         fcntl.flock(lk, fcntl.LOCK_EX)
-        subprocess.run([sys.executable, os.path.join(HERE, "gen_shadow.py"), SHADOW], check=True)
-        env = dict(os.environ, CARGO_NET_OFFLINE="true", CARGO_TARGET_DIR=os.path.join(ROOT, "build", "target-loom"))
-        r = subprocess.run(["cargo", "build", "--release"], cwd=HERE, env=env, capture_output=True, text=True)
-        open(os.path.join(ROOT, "build", "svloom.log"), "w").write(r.stdout + r.stderr)
-        if r.returncode != 0:
-            sys.stderr.write("MACHINERY: building the loom harness against /repo failed:\n")
-            lines = (r.stdout + r.stderr).splitlines()
-            for i, l in enumerate(lines):
-                if l.startswith("error"):
-                    sys.stderr.write("\n".join(lines[i:i + 10]) + "\n")
-                    break
-            sys.exit(2)
+        for engine in ("loom", "shuttle"):
+            # the Cargo.toml of each harness names its shadow package by this fixed path
+            subprocess.run([sys.executable, os.path.join(HERE, "gen_shadow.py"), f"/verif/build/sv{engine}-shadow", engine], check=True)
+            env = dict(os.environ, CARGO_NET_OFFLINE="true", CARGO_TARGET_DIR=os.path.join(ROOT, "build", f"target-{engine}"))
+            r = subprocess.run(["cargo", "build", "--release"], cwd=CRATES[engine], env=env, capture_output=True, text=True)
+            open(os.path.join(ROOT, "build", f"sv{engine}.log"), "w").write(r.stdout + r.stderr)
+            if r.returncode != 0:
+                sys.stderr.write(f"MACHINERY: building the {engine} harness against /repo failed:\n")
+                lines = (r.stdout + r.stderr).splitlines()
+                for i, l in enumerate(lines):
+                    if l.startswith("error"):
+                        sys.stderr.write("\n".join(lines[i:i + 10]) + "\n")
+                        break
+                sys.exit(2)
 
 
 def programs(max_calls):
@@ -39,8 +42,43 @@ def programs(max_calls):
 
 
 def configs(tier):
-    """(name, pb, text, programs) in simplest-first order"""
+    """(family, pb, text, programs, engine) in simplest-first order"""
     cfg = []
+    # ---- engine shuttle: exhaustive depth-first search without partial-order reduction, preemption-bounded
+    light = ["L0", "L1", "L9", "C"]
+    q = tier == "quick"
+    for text in TEXTS:
+        for a in CALLS:
+            for b in CALLS[CALLS.index(a):]:
+                if a in light and b in light:
+                    cfg.append(("dfs-2t-1call-unbounded", None, text, [[a], [b]], "shuttle"))
+                else:
+                    cfg.append(("dfs-2t-1call", 5 if q else 7, text, [[a], [b]], "shuttle"))
+    p12 = programs(2)
+    for text in TEXTS:
+        for i, p in enumerate(p12):
+            for r in p12[i:]:
+                if len(p) + len(r) > 2:
+                    cfg.append(("dfs-2t-2calls", 3 if q else 5, text, [p, r], "shuttle"))
+    for text in TEXTS:
+        for ms in itertools.combinations_with_replacement(CALLS, 3):
+            cfg.append(("dfs-3t-1call", 3 if q else 4, text, [[c] for c in ms], "shuttle"))
+    if not q:
+        p13 = programs(3)
+        for text in TEXTS[1:]:
+            for i, p in enumerate(p13):
+                for r in p13[i:]:
+                    if len(p) == 3 or len(r) == 3:
+                        cfg.append(("dfs-2t-3calls", 2, text, [p, r], "shuttle"))
+        for text in TEXTS[2:]:
+            for ms in itertools.combinations_with_replacement(range(len(p12)), 3):
+                ps = [p12[i] for i in ms]
+                if 4 <= sum(len(p) for p in ps) <= 4:
+                    cfg.append(("dfs-3t-2calls", 2, text, ps, "shuttle"))
+        for text in TEXTS[1:]:
+            for ms in itertools.combinations_with_replacement(CALLS, 4):
+                cfg.append(("dfs-4t-1call", 2, text, [[c] for c in ms], "shuttle"))
+    # ---- engine loom: DPOR + C11 memory model
     two = programs(2 if tier == "quick" else 3)
     # 2 threads: every unordered pair of programs, unbounded
     def weight(text, prog):
@@ -52,13 +90,13 @@ def configs(tier):
                 heavy = weight(text, p) + weight(text, q) > (18 if tier == "quick" else 26)
                 if heavy:
                     # too many lock operations for an unbounded search in this tier: bounded instead
-                    cfg.append(("2t-heavy", 3 if tier == "quick" else 4, text, [p, q]))
+                    cfg.append(("2t-heavy", 3 if tier == "quick" else 4, text, [p, q], "loom"))
                 else:
-                    cfg.append(("2t", None, text, [p, q]))
+                    cfg.append(("2t", None, text, [p, q], "loom"))
     # 3 threads x 1 call: every multiset; preemption bound 2 (quick) / 3 (thorough)
     for text in TEXTS:
         for ms in itertools.combinations_with_replacement(CALLS, 3):
-            cfg.append(("3t1c", 2 if tier == "quick" else 3, text, [[c] for c in ms]))
+            cfg.append(("3t1c", 2 if tier == "quick" else 3, text, [[c] for c in ms], "loom"))
     if tier == "thorough":
         # 3 threads x 1..2 calls, preemption bound 2
         one_two = programs(2)
@@ -66,30 +104,31 @@ def configs(tier):
             for ms in itertools.combinations_with_replacement(range(len(one_two)), 3):
                 ps = [one_two[i] for i in ms]
                 if sum(len(p) for p in ps) <= 4:
-                    cfg.append(("3t2c", 2, text, ps))
+                    cfg.append(("3t2c", 2, text, ps, "loom"))
         # 4 threads x 1 call, preemption bound 2
         for text in TEXTS[1:]:
             for ms in itertools.combinations_with_replacement(CALLS, 4):
-                cfg.append(("4t1c", 2, text, [[c] for c in ms]))
+                cfg.append(("4t1c", 2, text, [[c] for c in ms], "loom"))
         # 3 threads x 1 call unbounded for the multisets that touch indexing twice
         for text in ["a\\nb"]:
             for ms in [("C", "C", "C"), ("L0", "L1", "C"), ("L9", "C", "N"), ("L1", "L1", "L9")]:
-                cfg.append(("3t1c-unbounded", None, text, [[c] for c in ms]))
+                cfg.append(("3t1c-unbounded", None, text, [[c] for c in ms], "loom"))
     return cfg
 
 
 def line_of(i, c):
-    name, pb, text, progs = c
+    name, pb, text, progs = c[:4]
     return f"{i}\t{'-' if pb is None else pb}\t{text}\t{'|'.join(','.join(p) for p in progs)}"
 
 
 def run_batch(args):
     bi, items, limit = args
+    engine = items[0][1][4]
     path = os.path.join(ROOT, "build", f"loom-batch-{os.getpid()}-{bi}.txt")
     open(path, "w").write("\n".join(line_of(i, c) for i, c in items) + "\n")
     t0 = time.time()
     try:
-        r = subprocess.run([BIN, path], capture_output=True, text=True, timeout=limit)
+        r = subprocess.run([BINS[engine], path], capture_output=True, text=True, timeout=limit, env=dict(os.environ, SHUTTLE_SILENCE_WARNINGS="1"))
         rc, out, err = r.returncode, r.stdout, r.stderr
     except subprocess.TimeoutExpired as e:
         rc, out, err = -9, (e.stdout or b"").decode() if isinstance(e.stdout, bytes) else (e.stdout or ""), "timeout"
@@ -135,9 +174,13 @@ def explore(cfgs, limit):
     """returns (results per config id, violations [(id, dict)], machinery errors)"""
     n = min(16, os.cpu_count() or 8)
     nb = n * 16
-    batches = [[] for _ in range(nb)]
-    for i, c in enumerate(cfgs):
-        batches[i % nb].append((i, c))
+    batches = []
+    for engine in ("shuttle", "loom"):
+        part = [(i, c) for i, c in enumerate(cfgs) if c[4] == engine]
+        bs = [[] for _ in range(nb)]
+        for k, item in enumerate(part):
+            bs[k % nb].append(item)
+        batches += [b for b in bs if b]
     results, viols, mach = {}, [], []
     with concurrent.futures.ThreadPoolExecutor(max_workers=n) as ex:
         for bi, rc, out, err, dt in ex.map(run_batch, [(bi, b, limit) for bi, b in enumerate(batches) if b]):
@@ -192,7 +235,7 @@ def main():
     if replay:
         d = json.load(open(replay))
         c = d["case"]
-        cfgs = [("replay", c["preemption_bound"], c["text"], c["programs"])]
+        cfgs = [("replay", c["preemption_bound"], c["text"], c["programs"], c.get("engine", "loom"))]
         results, viols, mach = explore(cfgs, 3600)
         if mach:
             print("MACHINERY:", "; ".join(mach), file=sys.stderr)
@@ -216,7 +259,7 @@ def main():
     summaries = []
     for sig, items in sorted(by_sig.items()):
         cid, v = items[0]
-        name, pb, text, progs = cfgs[cid]
+        name, pb, text, progs, engine = cfgs[cid]
         _, again, m2 = explore([cfgs[cid]], 3600)
         if m2 or not again or signature(again[0][1]) != sig:
             mach.append(f"violation {sig} of configuration {cid} did not reproduce on its own")
@@ -227,14 +270,14 @@ def main():
             known += 1
             summaries.append({"signature": sig, "configurations": len(items), "status": "known"})
             continue
-        case = {"text": text, "programs": progs, "preemption_bound": pb, "family": name}
+        case = {"text": text, "programs": progs, "preemption_bound": pb, "family": name, "engine": engine}
         digest = hashlib.sha256((sig + json.dumps(case, sort_keys=True)).encode()).hexdigest()[:12]
         path = os.path.join(ROOT, "replays", f"C16-{digest}.json")
         json.dump({"property": "C16", "signature": sig, "what": v, "configurations_with_this_signature": len(items), "case": case,
                    "replay_cmd": f"./check C16 --replay {path}"}, open(path, "w"), indent=1)
         print(f"VIOLATION property=C16 replay={path}")
         print(f"  signature: {sig}   ({len(items)} configurations)")
-        print(f"  text {text!r}, threads run {progs}, preemption bound {pb}: thread {v.get('thread')} call {v.get('call')} -> {v.get('observed')!r}, a single-threaded view answers {v.get('expected')!r}")
+        print(f"  engine {engine}, text {text!r}, threads run {progs}, preemption bound {pb}: thread {v.get('thread')} call {v.get('call')} -> {v.get('observed')!r}, a single-threaded view answers {v.get('expected')!r}")
         unknown += 1
         summaries.append({"signature": sig, "configurations": len(items), "status": "violation", "replay": path})
 
@@ -243,7 +286,7 @@ def main():
     calls = sum(r[2] for r in results.values())
     fams = {}
     for i, c in enumerate(cfgs):
-        f = fams.setdefault(c[0], {"family": c[0], "configurations": 0, "completed": 0, "schedules": 0, "preemption_bound": "unbounded" if c[1] is None else c[1], "max_schedules_one_configuration": 0})
+        f = fams.setdefault(c[0], {"family": c[0], "engine": c[4], "configurations": 0, "completed": 0, "schedules": 0, "preemption_bound": "unbounded" if c[1] is None else c[1], "max_schedules_one_configuration": 0})
         f["configurations"] += 1
         if i in results:
             f["completed"] += 1
@@ -253,8 +296,8 @@ def main():
     pick = [0, len(cfgs) - 1, (seed * 7919 + 13) % len(cfgs), (seed * 104729 + 101) % len(cfgs)]
     samples = []
     for i in sorted(set(pick)):
-        name, pb, text, progs = cfgs[i]
-        samples.append({"family": name, "text": text.replace("\\e", ""), "thread_programs": progs, "preemption_bound": pb, "schedules_explored": results.get(i, (None,))[0]})
+        name, pb, text, progs, engine = cfgs[i]
+        samples.append({"engine": engine, "family": name, "text": text.replace("\\e", ""), "thread_programs": progs, "preemption_bound": pb, "schedules_explored": results.get(i, (None,))[0]})
     wall = time.time() - t0
     evidence = {
         "property_id": "C16", "tier": tier, "seed": seed, "level": "model_checking",
@@ -265,7 +308,7 @@ def main():
             "samples": samples,
             "evaluations": len(results),
             "distinct_nontrivial": sum(1 for i, c in enumerate(cfgs) if i in results and results[i][0] > 1),
-            "rule": "loom (DPOR, C11 memory model for the instrumented Mutex/AtomicUsize) explores every interleaving of each configuration (2 threads: unbounded; 3-4 threads: up to the stated preemption bound); a configuration = text x per-thread call programs over {get_line(0), get_line(1), get_line(9), line_count(), lines().collect()}; every call's answer is compared with the single-threaded answer, panics and deadlocks are violations, and the view is queried again after all threads joined. states = distinct call-completion orders observed (summed over configurations); transitions = calls executed on the real SourceView; traces = schedules executed (all on the implementation); non-trivial configuration = more than one schedule.",
+            "rule": "Two controlled-scheduler engines run the real SourceView, whose Mutex/AtomicUsize are switched by cfg. (1) shuttle runtime with the harness's own scheduler: depth-first enumeration of EVERY schedule with at most the stated number of preemptions (no partial-order reduction; every lock, unlock-to-lock hand-over and atomic operation is a scheduling point; sequentially consistent memory); single-call pairs over {get_line, line_count} without any bound. (2) loom: DPOR with the C11 memory model for the instrumented operations (2 threads: unbounded except the heaviest pairs; 3-4 threads: preemption-bounded). Engine (1) exists because loom's reduction was found to skip a real interleaving (DESIGN 9.1, fix 8b). A configuration = text x per-thread call programs over {get_line(0), get_line(1), get_line(9), line_count(), lines().collect()}; every call's answer is compared with the single-threaded answer, panics and deadlocks are violations, and the view is queried again after all threads joined. states = distinct call-completion orders observed (summed over configurations); transitions = calls executed on the real SourceView; traces = schedules executed (all on the implementation); non-trivial configuration = more than one schedule.",
             "exhaustive": complete and not mach,
             "families": list(fams.values()),
             "configurations": len(cfgs),
@@ -274,7 +317,8 @@ def main():
         "assumptions": [
             "only SourceView's Mutex and AtomicUsize are scheduling points; all other SourceView data is immutable (Arc<str>)",
             "loom's model of Relaxed atomics and of mutex acquire/release",
-            "3- and 4-thread configurations are explored up to the stated preemption bound, not exhaustively",
+            "3- and 4-thread configurations and multi-call programs are explored up to the stated preemption bound, not exhaustively",
+            "the depth-first engine assumes sequentially consistent atomics; Relaxed-specific behaviour is covered by loom only",
         ],
         "wall_s": round(wall, 3), "violations": unknown, "known_findings": known,
     }
